@@ -136,7 +136,12 @@ func genUpload(t *rapid.T, withGaps bool) upScript {
 		if len(all) > 1 {
 			all = rapid.Permutation(all).Draw(t, "chunk_order")
 		}
+		var heldAll []chunkRef
 		for _, c := range all {
+			if withGaps && rapid.IntRange(0, 3).Draw(t, "hold_i") == 0 {
+				heldAll = append(heldAll, c) // lost: the 0x1212 of that file must name it, whatever file was announced last
+				continue
+			}
 			emit(c)
 			if rapid.IntRange(0, 5).Draw(t, "dup") == 0 {
 				emit(c)
@@ -144,6 +149,14 @@ func genUpload(t *rapid.T, withGaps bool) upScript {
 		}
 		for _, fi := range order {
 			s.Items = append(s.Items, upItem{Kind: "1212", File: fi})
+		}
+		if len(heldAll) > 0 && rapid.IntRange(0, 3).Draw(t, "resend_i") != 0 {
+			for _, c := range heldAll {
+				emit(c)
+			}
+			for _, fi := range rapid.Permutation(order).Draw(t, "second_1212_order") {
+				s.Items = append(s.Items, upItem{Kind: "1212", File: fi})
+			}
 		}
 	} else {
 		uploadFile = func(fi int) {
